@@ -103,6 +103,11 @@ def gen(rng, nrng, tier):
                     yield ("grid", {"cls": cls, "x": x, "n1": n1, "c": c})
                     if r == 0:
                         yield ("glue", {"cls": cls, "x": x, "nfft": n1 * c})
+    # real-valued samples held in a complex array (exactly real model coefficients), odd and even grids
+    xz = (nrng.standard_normal(N) + np.cos(0.9 * n)).astype(complex)
+    for cls in C.CLASSES:
+        for (n1, c) in ([(25, 2), (49, 2), (24, 3)] if tier == "quick" else [(25, 2), (25, 3), (49, 2), (24, 3), (27, 2), (32, 3)]):
+            yield ("grid", {"cls": cls, "x": xz, "n1": n1, "c": c})
     for i in range(20 if tier == "quick" else 300):
         L = int(nrng.integers(1, 20))
         nfft = int(nrng.integers(max(1, L - 3), 40))
